@@ -14,6 +14,8 @@ pub struct MonoCase {
     pub base: NetCase,
     pub extra: String,
     pub at: usize,
+    #[serde(default)]
+    pub optimize: bool,
 }
 
 impl Case for MonoCase {
@@ -21,7 +23,7 @@ impl Case for MonoCase {
         self.base
             .smaller()
             .into_iter()
-            .map(|b| MonoCase { at: self.at.min(b.rules.len()), base: b, extra: self.extra.clone() })
+            .map(|b| MonoCase { at: self.at.min(b.rules.len()), base: b, extra: self.extra.clone(), optimize: self.optimize })
             .collect()
     }
 }
@@ -48,8 +50,8 @@ pub fn check_mono(c: &MonoCase, obs: &mut Obs) -> Result<(), String> {
     let res = gen::std_resources();
     let mut with = c.base.rules.clone();
     with.insert(c.at.min(with.len()), c.extra.clone());
-    let mut e0 = build_engine(&c.base.rules, false, false, &res);
-    let mut e1 = build_engine(&with, false, false, &res);
+    let mut e0 = build_engine(&c.base.rules, false, c.optimize, &res);
+    let mut e1 = build_engine(&with, false, c.optimize, &res);
     let tag_refs: Vec<&str> = c.base.tags.iter().map(|s| s.as_str()).collect();
     e0.use_tags(&tag_refs);
     e1.use_tags(&tag_refs);
@@ -96,7 +98,16 @@ pub fn decode_mono(t: &mut Tape) -> MonoCase {
     let cfg = OptCfg { allow_badfilter: false, ..Default::default() };
     let extra = gen::net_rule(t, &pool, &[], &cfg);
     let at = t.pick(base.rules.len() + 1);
-    MonoCase { base, extra, at }
+    MonoCase { base, extra, at, optimize: t.chance(1, 2) }
+}
+
+/// a large same-shape group with one of its rules taken out and added back as the extra rule
+pub fn decode_mono_big(t: &mut Tape) -> MonoCase {
+    let mut base = gen::big_group_case(t);
+    let k = t.pick(base.rules.len());
+    let extra = base.rules.remove(k);
+    let at = t.pick(base.rules.len() + 1);
+    MonoCase { base, extra, at, optimize: !t.chance(1, 4) }
 }
 
 // ---------------------------------------------------------------------------------------------
@@ -250,6 +261,21 @@ fn near_miss(t: &mut Tape, line: &str) -> String {
         Some(o) if !o.is_empty() => format!("{}${}", p, o),
         _ => p.to_string(),
     };
+    if let Some(o) = &opts {
+        if let Some(i) = o.find("domain=") {
+            let vend = o[i..].find(',').map(|k| i + k).unwrap_or(o.len());
+            let list: Vec<&str> = o[i + 7..vend].split('|').collect();
+            if list.len() >= 10 && t.chance(2, 3) {
+                let newlist: Vec<String> = if t.chance(1, 2) {
+                    list.iter().enumerate().map(|(k, d)| if d.starts_with('~') { format!("~other{}.org", k) } else { format!("other{}.org", k) }).collect()
+                } else {
+                    let k = t.pick(list.len());
+                    list.iter().enumerate().map(|(j, d)| if j == k { format!("{}x", d) } else { d.to_string() }).collect()
+                };
+                return join(&pat, &Some(format!("{}domain={}{}", &o[..i], newlist.join("|"), &o[vend..])));
+            }
+        }
+    }
     match t.pick(9) {
         0 => {
             // shift one character across the hostname/path boundary of ||host/path
@@ -362,7 +388,15 @@ pub fn decode_bad(t: &mut Tape) -> BadCase {
         pool.push(p.render());
     }
     let cfg = OptCfg { allow_tag: false, allow_badfilter: false, ..Default::default() };
-    let rule = gen::net_rule(t, &pool, &pool_hosts, &cfg);
+    let mut rule = gen::net_rule(t, &pool, &pool_hosts, &cfg);
+    if t.chance(1, 8) {
+        // a long initiator-domain list (thresholds such as 16 entries)
+        let n = [15usize, 16, 17, 18, 32, 33, 40][t.pick(7)];
+        let neg = t.chance(1, 4);
+        let ds: Vec<String> = (0..n).map(|i| format!("{}site{}.com", if neg { "~" } else { "" }, i)).collect();
+        let base = rule.rfind('$').map(|i| rule[..i].to_string()).unwrap_or(rule.clone());
+        rule = format!("{}$domain={}", base, ds.join("|"));
+    }
     let twin = t.chance(1, 2);
     let other = if twin { respell(t, &rule) } else { near_miss(t, &rule) };
     let mut reqs = vec![];
@@ -384,17 +418,26 @@ pub fn decode_bad(t: &mut Tape) -> BadCase {
     for _ in 0..2 {
         reqs.push(gen::request(t, &pool, &pool_hosts));
     }
+    if rule.contains("site0.com") {
+        for u in pool.iter().take(2) {
+            for src in ["https://site0.com/", "https://site16.com/", "https://sub.site3.com/", "https://other0.org/", "https://other16.org/"] {
+                reqs.push(ReqSpec { url: u.clone(), source: src.to_string(), rtype: "script".into() });
+            }
+        }
+    }
     BadCase { rule, other, twin, reqs }
 }
 
 pub fn check(ctx: &mut Ctx) {
-    ctx.rule = "mono: list L (1-24 rules, C01 generator) + extra rule x cut from one of the request URLs, inserted at a generated index; engines for L and L+x compared on 1-8 requests (x exception => blocked(L+x) implies blocked(L); x blocking => blocked(L) implies blocked(L+x)); blocked/important/exception also compared with the rule-by-rule spec. Non-trivial = x itself matches the request. bad: rule y + rule z that is either a re-spelling of y (aliases, option order, domain order) or y with one semantic atom changed (char moved across host/path boundary, domain<->~domain, char moved between modifier value and pattern, pattern char, option added/removed/negated, @@ toggled, anchor toggled); engines [y], [z], [y, z$badfilter], [z$badfilter], [] observed on ~20 probes per URL. Non-trivial = twin cancelling a rule that visibly does something, or near-miss that some probe distinguishes from y.".into();
+    ctx.rule = "mono-big: a same-shape group of 2-800 rules (sizes around 16/32/64/128/256/512) with one rule taken out and added back as x, optimisation mostly on, one request per rule; mono: list L (1-24 rules, C01 generator, optimisation on/off) + extra rule x cut from one of the request URLs, inserted at a generated index; engines for L and L+x compared on 1-8 requests (x exception => blocked(L+x) implies blocked(L); x blocking => blocked(L) implies blocked(L+x)); blocked/important/exception also compared with the rule-by-rule spec. Non-trivial = x itself matches the request. bad: rule y + rule z that is either a re-spelling of y (aliases, option order, domain order) or y with one semantic atom changed (char moved across host/path boundary, domain<->~domain, char moved between modifier value and pattern, pattern char, option added/removed/negated, @@ toggled, anchor toggled); engines [y], [z], [y, z$badfilter], [z$badfilter], [] observed on ~20 probes per URL. Non-trivial = twin cancelling a rule that visibly does something, or near-miss that some probe distinguishes from y.".into();
     ctx.assumptions = vec![
         "tag differences between a rule and its badfilter twin are outside the domain (no tags generated for badfilter pairs)".into(),
         "a near-miss that no probe distinguishes from y is counted as undetermined, not checked".into(),
     ];
     let n = ctx.tier.pick(200_000, 2_500_000);
     drive(ctx, "mono", n, 900, &decode_mono, &check_mono);
+    let n = ctx.tier.pick(160, 6_000);
+    drive(ctx, "mono-big", n, 120, &decode_mono_big, &check_mono);
     let n = ctx.tier.pick(150_000, 2_500_000);
     drive(ctx, "bad", n, 300, &decode_bad, &check_bad);
 }
